@@ -78,6 +78,8 @@ theorem xOps_admissible : ∀ (ops : List Op) (st : Env × St), WF st.1 idLt →
         · exact wf_withAlive hw c false
         · exact hw
       | newCell c f b an => exact this.elim
+      | maxdepth k => exact wf_withMaxdepth hw k
+      | admin a => exact hw
     exact ⟨hstep, ih _ hstep (fun op' h' => hall op' (by simp [h']))⟩
 
 def yOps : List Op :=
